@@ -13,41 +13,158 @@ import (
 
 func init() { register("C11", checkC11) }
 
-// handlerChain decodes the value assigned to the dispatch `handler` variable:
-// W1(W2(...(s.X))) where Wi are closures created in the same function and s.X a bound method.
-func handlerChain(v ssa.Value) (wrappers []*ssa.Function, method *ssa.Function, ok bool) {
-	for depth := 0; depth < 6; depth++ {
-		switch x := v.(type) {
-		case *ssa.MakeClosure:
-			fn := x.Fn.(*ssa.Function)
-			if strings.HasSuffix(fn.Name(), "$bound") {
-				return wrappers, fn, true
-			}
-			return nil, nil, false
-		case *ssa.Call:
-			mc, isMC := x.Call.Value.(*ssa.MakeClosure)
-			if !isMC || len(x.Call.Args) != 1 {
-				return nil, nil, false
-			}
-			wrappers = append(wrappers, mc.Fn.(*ssa.Function))
-			v = x.Call.Args[0]
-		case *ssa.Function:
-			return wrappers, x, true
-		default:
-			return nil, nil, false
-		}
-	}
-	return nil, nil, false
+// handlerExpr decodes a func-typed value built from wrapper applications around a base handler:
+//
+//	v ::= h                      (the wrapped handler parameter, when decoding a wrapper's result)
+//	    | s.X / F                (a bound method or function taking the request: the base handler)
+//	    | W(v)                   (W a closure, bound method or function returning a func)
+//	    | func(m){ ...h(m)... }  (a closure capturing h: guards dominating every dynamic call)
+//
+// and returns the guards every eventual call of the base handler (or of h) is behind.
+type handlerRes struct {
+	guards  map[string]bool
+	handler *ssa.Function
+	ok      bool
+	inners  []*ssa.Function // the guard closures met on the way
 }
 
-// wrapperGuards summarises a wrapper closure `func(h) func(m){ if !cond {reply; return}; h(m) }`:
-// which of the given guards dominate every dynamic call of the wrapped handler.
-func wrapperGuards(w *ssa.Function, guards map[string]core.Guard) (map[string]bool, bool) {
-	out := map[string]bool{}
-	if len(w.AnonFuncs) != 1 {
-		return out, false
+func isFuncType(t types.Type) bool {
+	_, ok := t.Underlying().(*types.Signature)
+	return ok
+}
+
+func (c *Ctx) handlerExpr(v ssa.Value, h ssa.Value, guards map[string]core.Guard, depth int) handlerRes {
+	bad := handlerRes{map[string]bool{}, nil, false, nil}
+	if depth > 10 {
+		return bad
 	}
-	inner := w.AnonFuncs[0]
+	if h != nil && v == h {
+		return handlerRes{map[string]bool{}, nil, true, nil}
+	}
+	switch x := v.(type) {
+	case *ssa.Function:
+		if h == nil && x.Signature.Results().Len() == 0 {
+			return handlerRes{map[string]bool{}, x, true, nil}
+		}
+		return bad
+	case *ssa.MakeClosure:
+		fn := x.Fn.(*ssa.Function)
+		if h != nil {
+			// a closure capturing h: which guards dominate every dynamic call inside it
+			captures := false
+			for _, bnd := range x.Bindings {
+				if bnd == h {
+					captures = true
+				}
+				// captured by reference: the cell the parameter was spilled into
+				if al, ok := bnd.(*ssa.Alloc); ok && al.Referrers() != nil {
+					for _, ref := range *al.Referrers() {
+						if st, ok := ref.(*ssa.Store); ok && st.Addr == ssa.Value(al) && st.Val == h {
+							captures = true
+						}
+					}
+				}
+			}
+			if !captures {
+				return bad
+			}
+			g, ok := innerGuards(fn, guards)
+			return handlerRes{g, nil, ok, []*ssa.Function{fn}}
+		}
+		if fn.Signature.Results().Len() == 0 {
+			return handlerRes{map[string]bool{}, fn, true, nil}
+		}
+		return bad
+	case *ssa.Call:
+		if x.Call.IsInvoke() {
+			return bad
+		}
+		var callee *ssa.Function
+		if sc := x.Call.StaticCallee(); sc != nil {
+			callee = sc
+		} else if mc, ok := x.Call.Value.(*ssa.MakeClosure); ok {
+			callee = mc.Fn.(*ssa.Function)
+		}
+		if callee == nil || callee.Blocks == nil {
+			return bad
+		}
+		var farg ssa.Value
+		n := 0
+		for _, a := range x.Call.Args {
+			if isFuncType(a.Type()) {
+				farg = a
+				n++
+			}
+		}
+		if n != 1 {
+			return bad
+		}
+		w := c.wrapperFunc(callee, guards, depth+1)
+		sub := c.handlerExpr(farg, h, guards, depth+1)
+		if !w.ok || !sub.ok {
+			return bad
+		}
+		out := map[string]bool{}
+		for k := range w.guards {
+			out[k] = true
+		}
+		for k := range sub.guards {
+			out[k] = true
+		}
+		return handlerRes{out, sub.handler, true, append(append([]*ssa.Function{}, w.inners...), sub.inners...)}
+	}
+	return bad
+}
+
+// wrapperFunc summarises a function taking one func-typed parameter h and returning a func: the
+// guards that every eventual call of h is behind, on every return.
+func (c *Ctx) wrapperFunc(w *ssa.Function, guards map[string]core.Guard, depth int) handlerRes {
+	bad := handlerRes{map[string]bool{}, nil, false, nil}
+	var hp ssa.Value
+	n := 0
+	for _, p := range w.Params {
+		if isFuncType(p.Type()) {
+			hp = p
+			n++
+		}
+	}
+	if n != 1 || w.Signature.Results().Len() != 1 || !isFuncType(w.Signature.Results().At(0).Type()) {
+		return bad
+	}
+	var acc map[string]bool
+	var inners []*ssa.Function
+	ok := true
+	core.AllInstrs(w, func(in ssa.Instruction) {
+		ret, isRet := in.(*ssa.Return)
+		if !isRet {
+			return
+		}
+		res := c.handlerExpr(ret.Results[0], hp, guards, depth+1)
+		if !res.ok {
+			ok = false
+			return
+		}
+		inners = append(inners, res.inners...)
+		if acc == nil {
+			acc = res.guards
+			return
+		}
+		for k := range acc {
+			if !res.guards[k] {
+				delete(acc, k)
+			}
+		}
+	})
+	if !ok || acc == nil {
+		return bad
+	}
+	return handlerRes{acc, nil, true, inners}
+}
+
+// innerGuards: the guards that dominate every dynamic call in the closure
+// `func(m){ if !cond {reply; return}; h(m) }`.
+func innerGuards(inner *ssa.Function, guards map[string]core.Guard) (map[string]bool, bool) {
+	out := map[string]bool{}
 	var dyn []ssa.Instruction
 	core.AllInstrs(inner, func(in ssa.Instruction) {
 		call, ok := in.(*ssa.Call)
@@ -84,7 +201,8 @@ func wrapperGuards(w *ssa.Function, guards map[string]core.Guard) (map[string]bo
 type dispatchEntry struct {
 	Kind     string
 	Handler  *ssa.Function // $bound wrapper
-	Wrappers []*ssa.Function
+	Guards   map[string]bool
+	Inners   []*ssa.Function // guard closures around the handler
 	Pos      string
 	OK       bool
 }
@@ -120,8 +238,8 @@ func (c *Ctx) dispatchTable() (fn *ssa.Function, entries []dispatchEntry, nDispa
 			for i, ev := range phi.Edges {
 				pred := phi.Block().Preds[i]
 				kind := caseKind(pred, ccmT)
-				ws, m, ok := handlerChain(ev)
-				entries = append(entries, dispatchEntry{kind, m, ws, c.P.Pos(ev.Pos()), ok && kind != ""})
+				res := c.handlerExpr(ev, nil, c.sessionStateGuards(), 0)
+				entries = append(entries, dispatchEntry{kind, res.handler, res.guards, res.inners, c.P.Pos(ev.Pos()), res.ok && res.handler != nil && kind != ""})
 			}
 		})
 		if found {
@@ -137,7 +255,6 @@ func checkC11(c *Ctx) {
 	r.NotDecided = []string{"correctness of the authenticators themselves (C12)", "cluster-proxied requests carry the origin node's already-checked AsUser (trusted inter-node protocol)"}
 	r.Trusted = []string{"go/types, go/ssa construction", "closure/bound-method representation of go/ssa"}
 
-	sessVer := c.E().sessionField("ver")
 	sessUid := c.E().sessionField("uid")
 	sessLvl := c.E().sessionField("authLvl")
 	ccmT := c.P.NamedType("server", "ClientComMessage")
@@ -148,10 +265,7 @@ func checkC11(c *Ctx) {
 	authLvlF := c.field("server", "ClientComMessage", "AuthLvl")
 	levelRoot := c.konst("server/auth", "LevelRoot")
 
-	guards := map[string]core.Guard{
-		"ver":  core.EqGuard("Session.ver!=0", core.IsFieldLoad(sessVer), core.IsConstInt(0), false),
-		"user": core.EqGuard("AsUser!=\"\"", core.IsFieldLoad(asUser), core.IsConstString(""), false),
-	}
+	guards := c.sessionStateGuards()
 	policy := map[string][]string{
 		"Pub": {"ver", "user"}, "Sub": {"ver", "user"}, "Leave": {"ver", "user"}, "Get": {"ver", "user"},
 		"Set": {"ver", "user"}, "Del": {"ver", "user"}, "Login": {"ver"}, "Acc": {"ver"}, "Hi": {}, "Note": {},
@@ -203,8 +317,9 @@ func checkC11(c *Ctx) {
 				pred := dc.phi.Block().Preds[i]
 				kind := caseKind(pred, ccmT)
 				construct := fmt.Sprintf("%s: case msg.%s", fk(fn), kind)
-				ws, m, ok := handlerChain(ev)
-				if !ok || kind == "" {
+				res := c.handlerExpr(ev, nil, guards, 0)
+				m, have, shapeOK := res.handler, res.guards, true
+				if !res.ok || m == nil || kind == "" {
 					r.Fail("C11.1-dispatch-guards", construct, c.P.Pos(dc.call.Pos()), "handler value not of the form wrappers(bound method): undecided")
 					continue
 				}
@@ -212,17 +327,6 @@ func checkC11(c *Ctx) {
 				if !known {
 					r.Fail("C11.1-dispatch-guards", construct, c.P.Pos(dc.call.Pos()), "client message kind without a guard policy")
 					continue
-				}
-				have := map[string]bool{}
-				shapeOK := true
-				for _, w := range ws {
-					g, ok := wrapperGuards(w, guards)
-					if !ok {
-						shapeOK = false
-					}
-					for k := range g {
-						have[k] = true
-					}
 				}
 				missing := []string{}
 				for _, need := range pol {
@@ -356,8 +460,9 @@ func (c *Ctx) checkOboStores(fn *ssa.Function, asUser, authLvlF, sessUid, sessLv
 	r := c.R
 	r.Floor("C11.2-obo-root-only", 3)
 	gRoot := core.EqGuard("Session.authLvl==LevelRoot", core.IsFieldLoad(sessLvl), core.IsConstOf(levelRoot), true)
-	for _, f := range core.WithClosures(fn) {
-		core.AllInstrs(f, func(in ssa.Instruction) {
+	for _, root := range core.WithClosures(fn) {
+		root := root
+		c.withCallees(root, 2, func(f *ssa.Function, in ssa.Instruction, outer ssa.Instruction) {
 			st, ok := in.(*ssa.Store)
 			if !ok {
 				return
@@ -374,6 +479,10 @@ func (c *Ctx) checkOboStores(fn *ssa.Function, asUser, authLvlF, sessUid, sessLv
 				return
 			}
 			ok2, cnt := core.GuardedBy(f, st, gRoot)
+			if !(ok2 && cnt[0] > 0) && f != root {
+				// the store sits in an extracted helper: the call in the dispatcher is behind the guard
+				ok2, cnt = core.GuardedBy(root, outer, gRoot)
+			}
 			r.Check(ok2 && cnt[0] > 0, "C11.2-obo-root-only", construct+" [foreign identity]", c.pos(st),
 				"store of a client-supplied identity is reachable only through authLvl==LevelRoot", "a non-root session can set the acting user / level of a request")
 		})
@@ -602,7 +711,7 @@ func (c *Ctx) checkSenderHeader() {
 		for _, s := range core.CallsTo(fn, save) {
 			targets = append(targets, target{fn, s.(ssa.Instruction), "store.Messages.Save"})
 		}
-		if fn.Signature.Recv() != nil && isPtrToNamed(fn.Signature.Recv().Type(), "Session") && c.readsField(fn, headPub) {
+		if fn.Signature.Recv() != nil && isPtrToNamed(fn.Signature.Recv().Type(), "Session") && c.readsFieldDeep(fn, headPub) {
 			for _, s := range chanSends(fn, core.IsFieldLoad(bcast)) {
 				targets = append(targets, target{fn, s.Instr, "send on Subscription.broadcast"})
 			}
@@ -630,47 +739,64 @@ func (c *Ctx) checkSenderHeader() {
 		// cut the edges on which the head map is known nil and stays nil: handled by treating the
 		// comparison `head != nil` false edge as satisfied when no MapUpdate follows... we model it
 		// by cutting nil edges of map-typed nil tests.
-		cut := map[core.Edge]bool{}
-		for _, b := range t.fn.Blocks {
-			ifi, ok := b.Instrs[len(b.Instrs)-1].(*ssa.If)
-			if !ok {
-				continue
-			}
-			a := core.NormCond(ifi.Cond)
-			if a.Op.String() != "==" {
-				continue
-			}
-			var other ssa.Value
-			if core.IsNil(a.X) {
-				other = a.Y
-			} else if core.IsNil(a.Y) {
-				other = a.X
-			}
-			if other == nil {
-				continue
-			}
-			if _, isMap := other.Type().Underlying().(*types.Map); !isMap {
-				continue
-			}
-			// edge where map == nil
-			nilIdx := 0
-			if a.Negated {
-				nilIdx = 1
-			}
-			// only cut if that edge's target does not create/assign the map before target: approximate
-			// by checking the successor block contains no MakeMap
-			hasMake := false
-			for _, in := range b.Succs[nilIdx].Instrs {
-				if _, ok := in.(*ssa.MakeMap); ok {
-					hasMake = true
-				}
-			}
-			if !hasMake {
-				cut[core.Edge{From: b, Idx: nilIdx}] = true
-			}
-		}
-		found, _ := core.PathAvoiding(t.fn, nil, func(in ssa.Instruction) bool { return in == t.in }, isSenderWrite, cut)
+		cut := nilMapEdges(t.fn)
+		found, _ := core.PathAvoiding(t.fn, nil, func(in ssa.Instruction) bool { return in == t.in }, core.Deep(isSenderWrite, 2, nilMapEdges), cut)
 		r.Check(!found, "C11.5-sender-header", fk(t.fn)+": head[\"sender\"] fixed before "+t.nm, c.pos(t.in),
 			"every path with a non-nil head assigns sender from the session uid or deletes it", "a client-supplied \"sender\" header can survive to "+t.nm)
+	}
+}
+
+// nilMapEdges: the edges on which a map-typed value is known nil and no map is created next (no
+// header at all on that path).
+func nilMapEdges(fn *ssa.Function) map[core.Edge]bool {
+	cut := map[core.Edge]bool{}
+	for _, b := range fn.Blocks {
+		ifi, ok := b.Instrs[len(b.Instrs)-1].(*ssa.If)
+		if !ok {
+			continue
+		}
+		a := core.NormCond(ifi.Cond)
+		if a.Op.String() != "==" {
+			continue
+		}
+		var other ssa.Value
+		if core.IsNil(a.X) {
+			other = a.Y
+		} else if core.IsNil(a.Y) {
+			other = a.X
+		}
+		if other == nil {
+			continue
+		}
+		if _, isMap := other.Type().Underlying().(*types.Map); !isMap {
+			continue
+		}
+		// edge where map == nil
+		nilIdx := 0
+		if a.Negated {
+			nilIdx = 1
+		}
+		// only cut if that edge's target does not create/assign the map before target: approximate
+		// by checking the successor block contains no MakeMap
+		hasMake := false
+		for _, in := range b.Succs[nilIdx].Instrs {
+			if _, ok := in.(*ssa.MakeMap); ok {
+				hasMake = true
+			}
+		}
+		if !hasMake {
+			cut[core.Edge{From: b, Idx: nilIdx}] = true
+		}
+	}
+	return cut
+}
+
+// sessionStateGuards: the two per-request session-state tests of the dispatcher.
+func (c *Ctx) sessionStateGuards() map[string]core.Guard {
+	sessVer := c.E().sessionField("ver")
+	asUser := c.field("server", "ClientComMessage", "AsUser")
+	return map[string]core.Guard{
+		"ver":  core.EqGuard("Session.ver!=0", core.IsFieldLoad(sessVer), core.IsConstInt(0), false),
+		"user": core.EqGuard("AsUser!=\"\"", core.IsFieldLoad(asUser), core.IsConstString(""), false),
 	}
 }
